@@ -57,7 +57,7 @@ def plan(tier, seed):
             f"in every state every context over V+{{EOS}} of length <= {p['ctxlen']} (viable, non-viable, containing EOS) x back-ends earley, cky "
             "(Boolean weights; a Float-weighted copy exercises the map_values path): the key set of p_next(ctx) must equal "
             "{t : ctx.t is a prefix of a string of L(G).EOS} decided by the independent set-based viability oracle R3; lm(x.EOS) must equal membership. "
-            "perm = every rule order x 5 renamings. non-trivial = the oracle offers at least one token for at least one context"
+            "perm = every rule order x 6 renamings (one of them gives every OCCURRENCE of a nonterminal a new equal-but-not-identical object). non-trivial = the oracle offers at least one token for at least one context"
         ),
         "bounds": p,
         "assumptions": ["one PYTHONHASHSEED per run; rule order and names are enumerated for the small states"],
